@@ -6,6 +6,8 @@ mod util;
 #[cfg(feature = "fa")]
 mod valueterm;
 #[cfg(feature = "fa")]
+mod valueenc;
+#[cfg(feature = "fa")]
 mod valueconv;
 #[cfg(feature = "fb")]
 mod valueeq;
@@ -75,6 +77,8 @@ fn dispatch(t: &[&str]) -> String {
                 util::hexs(&format!("{}", f64::from_bits(u64::from_str_radix(t[2], 16).unwrap())))
             }
         }
+        #[cfg(feature = "fa")]
+        "venc" => valueenc::run(t),
         #[cfg(feature = "fa")]
         "from" | "null" | "try" | "rt" | "rtx" | "asnull" | "dummy" | "deq" | "tupinto" | "tupfrom" | "tup" => valueconv::run(t),
         #[cfg(feature = "fb")]
